@@ -5,8 +5,8 @@ E4 / selectors.  Hand-written executable model of `src/fandango/language/search.
 `|…|` / `len(*…)`, `find`, `find_direct`, `quantify`) and of the three `DerivationTree` methods they
 call (`find_all_trees`, `find_direct_trees`, `__getitem__`).
 
-Not modelled: `SelectiveSearch` (`{…}` selectors: `_find`/`format_as_spec` raise ValueError for every
-such selector, finding F12, so no spec containing one gets through the front end), generator
+`SelectiveSearch` (`{*<x>, *<y>: 0:2}`) is modelled as the code reads after fix 0d18e90f (before it every
+such selector raised ValueError, finding F12).  Not modelled: generator
 `sources` (trees are the trees of grammars without generators; `sources = []`), the `population`
 argument (population-wide `**` selectors are rejected by the front end).
 
@@ -113,6 +113,15 @@ def Cont.trees : Cont → List Tree
   | .list ts => ts
   | .len ts => ts
 
+/-- one `*<x>: items` entry of a `{…}` selector: the symbol, whether only direct children are looked at
+    (the grammar always writes `*`, i.e. `direct = false`), and the optional index / slice applied to the
+    list of matches below each base tree -/
+structure SelPair where
+  sym : String
+  direct : Bool
+  items : Option Slc
+  deriving Repr
+
 inductive Search where
   | rule (s : String)
   | attr (base attrib : Search)
@@ -120,6 +129,7 @@ inductive Search where
   | item (base : Search) (sl : List Slc)
   | star (base : Search)
   | len (base : Search)
+  | sel (base : Search) (pairs : List SelPair)
   deriving Repr
 
 /-- sequential `extend` over a list, stopping at the first exception -/
@@ -144,6 +154,19 @@ def mapE {α β ε : Type} (f : α → Except ε β) : List α → Except ε (Li
       | .ok ys => .ok (y :: ys)
 
 def allTrees (cs : List Cont) : List Tree := cs.flatMap Cont.trees
+
+/-- `child.__getitem__(items)` on the *list* of matches below one base tree (`SelectiveSearch._find`):
+    an index picks one match, a slice a sub-list -/
+def selItems (l : List Tree) : Option Slc → Except SErr (List Tree)
+  | none => .ok l
+  | some (.idx i) => match Tree.pyIndex l i with
+    | .error e => .error e
+    | .ok x => .ok [x]
+  | some (.slice a b st) => Tree.pySlice l a b st
+
+/-- one entry of a `{…}` selector over all base trees -/
+def selPair (ts : List Tree) (p : SelPair) : Except SErr (List Tree) :=
+  flatMapE (fun t => selItems (if p.direct then t.findDirect p.sym else t.findAll p.sym) p.items) ts
 
 namespace Search
 
@@ -176,6 +199,13 @@ def findG : Bool → Search → Tree → Scope → Except SErr (List Cont)
     match findG direct b t σ with
     | .error e => .error e
     | .ok bs => .ok [.len (allTrees bs)]
+  | direct, sel b ps, t, σ =>
+    match findG direct b t σ with
+    | .error e => .error e
+    | .ok bs =>
+      match flatMapE (selPair (allTrees bs)) ps with
+      | .error e => .error e
+      | .ok ts => .ok (ts.map .tree)
 
 def find (s : Search) (t : Tree) (σ : Scope) : Except SErr (List Cont) := findG false s t σ
 def findDirect (s : Search) (t : Tree) (σ : Scope) : Except SErr (List Cont) := findG true s t σ
@@ -188,6 +218,7 @@ def yieldsTrees : Search → Bool
   | item _ _ => true
   | star _ => false
   | len _ => false
+  | sel _ _ => true
 
 /-- `[c.evaluate() for c in search.quantify(tree, scope)]` for the searches a quantifier can be given:
     a star search binds each matching tree in turn (`StarSearch.quantify`), every other search binds
